@@ -193,6 +193,7 @@ pub struct Engine {
     pub case_deadline: Duration,
     pub inconclusive: AtomicBool,
     pub enum_distinct: AtomicU64,
+    pub trace_path: Option<PathBuf>,
 }
 
 struct WatchSlot {
@@ -232,6 +233,7 @@ impl Engine {
             ),
             inconclusive: AtomicBool::new(false),
             enum_distinct: AtomicU64::new(0),
+            trace_path: std::env::var("VERIF_TRACE").ok().map(PathBuf::from),
         }
     }
 
@@ -379,9 +381,11 @@ impl Engine {
             return false;
         }
         let t0 = Instant::now();
-        let workers = self.workers.min(cases as usize).max(1);
-        let per = cases / workers as u64;
-        let extra = cases % workers as u64;
+        // 16 logical workers (fixed: seeds do not depend on the thread count) on `workers` threads
+        const LOGICAL: usize = 16;
+        let workers = self.workers.clamp(1, LOGICAL);
+        let per = cases / LOGICAL as u64;
+        let extra = cases % LOGICAL as u64;
         let stop = AtomicBool::new(false);
         let slots: Vec<Arc<WatchSlot>> = (0..workers)
             .map(|_| {
@@ -438,22 +442,29 @@ impl Engine {
                 let _ = stop_ref;
             });
             let handles: Vec<_> = (0..workers)
-                .map(|w| {
-                    let n = per + if (w as u64) < extra { 1 } else { 0 };
-                    let slot = slots[w].clone();
+                .map(|t| {
+                    let slot = slots[t].clone();
                     let strategy = &strategy;
                     let test = &test;
                     let stop = &stop;
                     let done = &done;
                     let this = &*self;
                     scope.spawn(move || {
-                        let r = this.worker(name, w, n, strategy, test, stop, &slot);
+                        let mut out = vec![];
+                        for w in (t..LOGICAL).step_by(workers) {
+                            let n = per + if (w as u64) < extra { 1 } else { 0 };
+                            let (st, f) = this.worker(name, w, n, strategy, test, stop, &slot);
+                            out.push((w, st, f));
+                        }
                         done.fetch_add(1, Ordering::Relaxed);
-                        r
+                        out
                     })
                 })
                 .collect();
-            handles.into_iter().map(|h| h.join().unwrap()).collect()
+            let mut all: Vec<(usize, StageStats, Option<(Value, Failure)>)> =
+                handles.into_iter().flat_map(|h| h.join().unwrap()).collect();
+            all.sort_by_key(|x| x.0);
+            all.into_iter().map(|(_, st, f)| (st, f)).collect()
         });
         let mut merged = StageStats {
             name: name.to_string(),
@@ -543,6 +554,13 @@ impl Engine {
                 None
             };
             *slot.started.lock().unwrap() = Some((Instant::now(), stash));
+            if let Some(tp) = &self.trace_path {
+                // crash localisation mode (single thread): the case is on disk before it runs
+                let doc = json!({"property": self.id, "stage": stage, "kind": "crash",
+                    "message": "the harness process crashed while executing this case",
+                    "seed": self.seed, "tier": self.tier.name(), "case": serde_json::to_value(&v).unwrap_or(Value::Null)});
+                let _ = std::fs::write(tp, serde_json::to_string(&doc).unwrap());
+            }
             let mut ctx = CaseCtx::default();
             let r = self.guarded(&v, &mut ctx, test);
             *slot.started.lock().unwrap() = None;
@@ -626,6 +644,13 @@ impl Engine {
                                 break;
                             }
                             let hi = (lo + chunk).min(total);
+                            if let Some(tp) = &self.trace_path {
+                                let doc = json!({"property": self.id, "stage": name, "kind": "crash",
+                                    "message": format!("the harness process crashed in items {lo}..{hi}"),
+                                    "seed": self.seed, "tier": self.tier.name(),
+                                    "case": {"index": lo, "seed": self.seed, "tier": self.tier.name()}});
+                                let _ = std::fs::write(tp, serde_json::to_string(&doc).unwrap());
+                            }
                             // fast path: whole chunk under one catch_unwind, local accounting
                             let mut evals = 0u64;
                             let mut nontriv = 0u64;
